@@ -240,6 +240,53 @@ def run(repo):
                          'x0**2 >= sum(x_i**2) then get a non-convex, vacuous constraint'
                          % (ntext(comp[0].elt)[:50], b['_base'][1], b['_str'][1], b['_h'][1], b['_n'][1],
                             '; found ' + '; '.join(near) if near else ''), repo.where(fi, comp[0]), P))
+    # (i) the columns added per exponential cone are unbounded above.  The weights that split the scale of a
+    #     perspective cone sum to that scale, which may exceed 1: any finite upper bound on the auxiliary block cuts
+    #     feasible points of the approximated cone off (or makes the program infeasible).
+    ubv = env.get('ub')
+    uext = None
+    for d in (defs.get(ubv.id, []) if isinstance(ubv, ast.Name) else []):
+        if isinstance(d, ast.Call) and call_name(d) in ('np.concatenate', 'numpy.concatenate', 'np.hstack', 'np.append') and \
+                d.args and isinstance(d.args[0], (ast.Tuple, ast.List)) and len(d.args[0].elts) == 2:
+            uext = d.args[0].elts[1]
+    if uext is None:
+        raise AnalysisError('to_socp: the upper bounds appended per exponential cone were not found')
+
+    def all_inf(e):
+        t = ntext(e).replace(' ', '')
+        if isinstance(e, ast.BinOp) and isinstance(e.op, ast.Mult):
+            a_, b_ = e.left, e.right
+            for x_, y_ in ((a_, b_), (b_, a_)):
+                if isinstance(x_, ast.Call) and call_name(x_) in ('np.ones', 'numpy.ones') and \
+                        ntext(y_) in ('np.inf', 'numpy.inf', 'math.inf', "float('inf')"):
+                    return True
+        if isinstance(e, ast.Call) and call_name(e) in ('np.full', 'numpy.full') and len(e.args) >= 2 and \
+                ntext(e.args[1]) in ('np.inf', 'numpy.inf', 'math.inf', "float('inf')"):
+            return True
+        return False
+    uprob = None
+    if isinstance(uext, ast.Name):
+        udefs = defs.get(uext.id, [])
+        stores_ = [n for n in walk_no_nested(fi.node) if isinstance(n, (ast.Assign, ast.AugAssign)) and
+                   any(isinstance(t_, ast.Subscript) and ntext(t_.value) == uext.id
+                       for t_ in (n.targets if isinstance(n, ast.Assign) else [n.target]))]
+        if len(udefs) != 1:
+            raise AnalysisError('to_socp: the appended upper-bound vector `%s` has %d definitions' % (uext.id, len(udefs)))
+        if not all_inf(udefs[0]):
+            raise AnalysisError('to_socp: the appended upper-bound vector is built by `%s`, a form the rule does not '
+                                'interpret' % ntext(udefs[0])[:50])
+        finite = [n for n in stores_ if not (isinstance(n, ast.Assign) and ntext(n.value) in ('np.inf', 'numpy.inf'))]
+        if finite:
+            uprob = 'sets `%s`' % ntext(finite[0])[:50]
+    elif not all_inf(uext):
+        raise AnalysisError('to_socp: the appended upper bounds `%s` have a form the rule does not interpret'
+                            % ntext(uext)[:50])
+    res.inst({'added columns': 'upper bound +inf', 'ok': uprob is None}, uprob is None)
+    if uprob is not None:
+        res.fail(Finding(RULE, fi.fq, 'finite upper bound on the added columns',
+                         'to_socp %s on the auxiliary columns it adds for an exponential cone: they must stay unbounded '
+                         'above (the split weights of a perspective cone sum to its scale, which may exceed 1)' % uprob,
+                         repo.where(fi), P))
     # front ends
     for fq in ('gcp.Model.soc_solve', 'ro.Model.soc_solve', 'dro.Model.soc_solve'):
         f2 = repo.func(fq)
